@@ -107,11 +107,13 @@ def line_marker(code):
 
 
 def next_line_marker(line):
-    return "# thailint: ignore-next-line" in line or "# design-lint: ignore-next-line" in line
+    return ("# thailint: ignore-next-line" in line or "# design-lint: ignore-next-line" in line
+            or "// thailint: ignore-next-line" in line or "// design-lint: ignore-next-line" in line)
 
 
 def file_marker(line):
-    return "# thailint: ignore-file" in line.lower() or "# design-lint: ignore-file" in line.lower()
+    return ("# thailint: ignore-file" in line.lower() or "# design-lint: ignore-file" in line.lower()
+            or "// thailint: ignore-file" in line.lower() or "// design-lint: ignore-file" in line.lower())
 
 
 @opaque
